@@ -110,13 +110,16 @@ func implTrig(rad fl) (float64, float64, float64) {
 func dyadic(r *rng.R, span int) fl { return fl(r.Range(-span, span)) / 4 }
 
 func randT(r *rng.R) matrix.Transform {
-	switch r.Intn(6) {
+	switch r.Intn(7) {
 	case 0:
 		return matrix.Identity()
 	case 1:
 		return matrix.Translation(dyadic(r, 40), dyadic(r, 40))
 	case 2:
 		return matrix.Scaling(dyadic(r, 12), dyadic(r, 12))
+	case 3:
+		// axis-aligned with a translation (non-uniform scale): a frequent special case
+		return matrix.New(dyadic(r, 12), 0, 0, dyadic(r, 12), dyadic(r, 40), dyadic(r, 40))
 	}
 	return matrix.New(dyadic(r, 16), dyadic(r, 16), dyadic(r, 16), dyadic(r, 16), dyadic(r, 40), dyadic(r, 40))
 }
@@ -148,6 +151,9 @@ func Run(tier string, seed uint64, modelPath, repo string, out *res.Result) erro
 		return err
 	}
 	if err := runSVG(m, r.Sub(), nSVG, fonts, out); err != nil {
+		return err
+	}
+	if err := runCSSShared(m, r.Sub(), nCSS/5, fonts, out); err != nil {
 		return err
 	}
 	out.ModelCalls = m.N
@@ -781,6 +787,130 @@ func runSVG(m *mp.Model, r *rng.R, n int, fonts text.FontConfiguration, out *res
 		modelM, _, _ := parseT(ans.Xs[1])
 		if !close6(arr(*impl), modelM, 5e-4) {
 			out.Add(res.Finding{Kind: "corr", Op: "corr:svg:applyTo", Input: src, Impl: fmt.Sprint(*impl), Model: ans.String(), Seed: caseSeed})
+		}
+	}
+	return nil
+}
+
+// ---------------------------------------------------------------------------------------------
+// CSS, one rule shared by several elements with different font sizes (font-relative translate)
+
+type sharedFn struct {
+	text string
+	spec func(fs float64) sx.X // the function for an element whose font size is fs
+}
+
+func runCSSShared(m *mp.Model, r *rng.R, n int, fonts text.FontConfiguration, out *res.Result) error {
+	const w, h = 40.0, 20.0
+	sizes := []float64{10, 30, 20}
+	cols := [][3]int{{1, 2, 3}, {4, 5, 6}, {7, 8, 9}}
+	for i := 0; i < n; i++ {
+		cr := r.Sub()
+		caseSeed := cr.Seed()
+		var spec trigTable
+		k := cr.Range(1, 3)
+		var fns []sharedFn
+		relLen := func(ref float64) (string, func(fs float64) float64) {
+			v := float64(cr.Range(-8, 8)) / 4
+			switch cr.Intn(4) {
+			case 0:
+				return fmt.Sprintf("%vem", v), func(fs float64) float64 { return v * fs }
+			case 1:
+				return fmt.Sprintf("%vrem", v), func(float64) float64 { return v * 16 }
+			case 2:
+				p := v * 25
+				return fmt.Sprintf("%v%%", p), func(float64) float64 { return p * ref / 100 }
+			}
+			return fmt.Sprintf("%vpx", v*4), func(float64) float64 { return v * 4 }
+		}
+		for j := 0; j < k; j++ {
+			if cr.P(2, 3) {
+				tx, fx := relLen(w)
+				ty, fy := relLen(h)
+				fns = append(fns, sharedFn{"translate(" + tx + ", " + ty + ")", func(fs float64) sx.X {
+					return sx.L(sx.A("translate"), sx.R(fx(fs)), sx.R(fy(fs)))
+				}})
+			} else {
+				f := genCSSFn(cr, &spec, w, h, false)
+				fns = append(fns, sharedFn{f.text, func(float64) sx.X { return f.spec }})
+			}
+		}
+		var texts []string
+		for _, f := range fns {
+			texts = append(texts, f.text)
+		}
+		var b strings.Builder
+		fmt.Fprintf(&b, `<style>@page{size:400px 300px;margin:0} html,body{margin:0} .t{width:%vpx;height:%vpx;transform:%s;transform-origin:0 0}`, w, h, strings.Join(texts, " "))
+		order := []int{0, 1, 2}
+		for q := 2; q > 0; q-- { // the order in which the elements appear (and are computed) varies
+			o := cr.Intn(q + 1)
+			order[q], order[o] = order[o], order[q]
+		}
+		for _, e := range order {
+			fmt.Fprintf(&b, ` #e%d{font-size:%vpx;background:#%02x%02x%02x}`, e, sizes[e], cols[e][0], cols[e][1], cols[e][2])
+		}
+		b.WriteString(`</style><body>`)
+		for _, e := range order {
+			fmt.Fprintf(&b, `<div id=e%d class=t></div>`, e)
+		}
+		src := b.String()
+		out.Count(src, true)
+		out.Hit("css-shared-rule")
+		if i < 1 {
+			out.Sample(map[string]interface{}{"html": src, "seed": caseSeed})
+		}
+		var doc *render.Doc
+		var rerr error
+		oc := render.Guard(20*time.Second, func() { doc, rerr = render.Full(src, fonts, render.Opts{}) })
+		if oc.Timeout { // under load: confirm alone with a long limit before calling it a hang
+			oc = render.Guard(180*time.Second, func() { doc, rerr = render.Full(src, fonts, render.Opts{}) })
+		}
+		if !oc.OK() || rerr != nil {
+			out.Add(res.Finding{Kind: "crash", Op: "crash:render", Input: src, Reason: fmt.Sprint(oc.Panic, oc.Timeout, rerr), Key: oc.Site, Seed: caseSeed})
+			continue
+		}
+		for pos, e := range order {
+			col := [3]float64{float64(cols[e][0]) / 255, float64(cols[e][1]) / 255, float64(cols[e][2]) / 255}
+			_, idx := findEvents(doc.Rec, col)
+			var impl *matrix.Transform
+			if idx >= 0 {
+				if ts := transformsBefore(doc.Rec, idx); len(ts) > 0 && ts[0].Depth >= 2 {
+					t := evT(ts[0])
+					impl = &t
+				}
+			}
+			var specs []sx.X
+			for _, f := range fns {
+				specs = append(specs, f.spec(sizes[e]))
+			}
+			origin := sx.L(sx.A("origin"), sx.R(0), sx.R(float64(pos)*h))
+			ans, err := m.Ask(sx.L(sx.A("css"), origin, sx.L(append([]sx.X{sx.A("fns")}, specs...)...), spec.x()))
+			if err != nil {
+				return err
+			}
+			if ans.Head() != "ok" {
+				return fmt.Errorf("model rejected css request: %s", ans)
+			}
+			specM, _, _ := parseT(ans.Xs[2])
+			det := specM[0]*specM[3] - specM[1]*specM[2]
+			bad := ""
+			switch {
+			case impl == nil && idx < 0:
+				if math.Abs(det) > 1e-6 {
+					bad = "invertible transform but the box was not drawn"
+				}
+			case impl == nil:
+				if !close6(arr(matrix.Identity()), specM, 1e-4) {
+					bad = "no Transform call although CSS Transforms defines a non-identity matrix"
+				}
+			default:
+				if !close6(arr(*impl), specM, 2e-4) {
+					bad = fmt.Sprintf("element #e%d (font-size %vpx): matrix %v differs from the one the shared rule defines for its font size", e, sizes[e], *impl)
+				}
+			}
+			if bad != "" {
+				out.Add(res.Finding{Kind: "judge", Op: "judge:css-matrix-shared-rule", Input: src, Impl: fmt.Sprint(impl), Model: ans.String(), Reason: bad, Seed: caseSeed})
+			}
 		}
 	}
 	return nil
